@@ -139,6 +139,11 @@ pub enum Op {
         pair: AddrRef,
         code_id: Option<u64>,
     },
+    /// chain-level migration of a contract by its admin (the owner is admin of factory and router)
+    Migrate {
+        target: AddrRef,
+        code_id: u64,
+    },
     /// any JSON message to any contract
     Raw {
         target: AddrRef,
@@ -226,6 +231,7 @@ impl Op {
             Op::UpdateConfig { .. } => "update_config",
             Op::MigratePair { .. } => "migrate_pair",
             Op::Raw { .. } => "raw",
+            Op::Migrate { .. } => "migrate",
             Op::Batch(_) => "batch",
             Op::Quote { .. } => "quote",
             Op::QuoteThenSwap { .. } => "quote_then_swap",
